@@ -364,6 +364,22 @@ def discharge(ob, timeout_ms=None, use_cvc5=True):
     if ob.result is not None:
         return ob
     timeout_ms = timeout_ms or QUICK_TIMEOUT_MS
+    if z3.is_false(z3.simplify(ob.goal)):
+        # a structural obligation that evaluated to False: it fails unless the path itself is infeasible
+        s = z3.Solver()
+        s.set("timeout", min(timeout_ms, 10000))
+        s.add(*[h for h in ob.hyps if not has_quantifier(h)])
+        t = time.time()
+        r = s.check()
+        ob.solver_s = time.time() - t
+        ob.backend = "z3-" + z3.get_version_string()
+        if r == z3.unsat:
+            ob.result = "proved"
+        else:
+            ob.result = "failed"
+            ob.model = s.model() if r == z3.sat else None
+            ob.reason = "goal is the constant False on a feasible path"
+        return ob
     r, model, dt, reason, solver = _solve_z3(ob.hyps, ob.goal, timeout_ms)
     ob.solver_s = dt
     ob.backend = "z3-" + z3.get_version_string()
